@@ -34,11 +34,20 @@ Theorem C18_monitor_reset_allowed : forall allow s,
 Proof. exact monitor_reset_allowed. Qed.
 Print Assumptions C18_monitor_reset_allowed.
 
-(* the results file read back lists exactly the reported episodes, in order *)
-Theorem C18_file_rows_are_episodes_in_order : forall allow ops,
+(* PARTIAL: the rows handed to the results writer are exactly the reported episodes, in order.  The CSV text, pandas'
+   reader, the sort by t and the merge of several files in load_results are NOT modelled (load_rows is the list of rows
+   itself); they are exercised by the correspondence under a strictly increasing fake clock only *)
+Theorem C18_file_rows_are_episodes_in_order_partial : forall allow ops,
   load_rows (fst (mon_run allow m0 ops)) = infos_of (snd (mon_run allow m0 ops)).
-Proof. exact file_rows_are_episodes_in_order. Qed.
-Print Assumptions C18_file_rows_are_episodes_in_order.
+Proof. exact file_rows_are_episodes_in_order_partial. Qed.
+Print Assumptions C18_file_rows_are_episodes_in_order_partial.
+
+(* the executable wrapper-around-a-scripted-env that the correspondence validates is mon_run on the operations the
+   wrapper lets through *)
+Theorem C18_mon_env_run_is_mon_run : forall allow sc ops c s,
+  mon_env_run allow sc c s ops = mon_run allow s (mops_of allow sc c s ops).
+Proof. exact mon_env_run_is_mon_run. Qed.
+Print Assumptions C18_mon_env_run_is_mon_run.
 
 (* the model's step is the one assembled from the statements regenerated from monitor.py *)
 Theorem C18_monitor_fragments : forall allow s r te tr,
@@ -148,3 +157,37 @@ Example C18_evaluate_example :
                       [c 9 true; c 2 true]; [c 9 true; c 9 true]]
   = ([mk_e 1 18 4; mk_e 2 0 0], [(0%nat, (1, 1)); (1%nat, (3, 3)); (1%nat, (4, 2))], true).
 Proof. reflexivity. Qed.
+
+(* ---- review items: the monitor-aware branch of evaluate_policy (lost lives), Monitor o evaluate ---- *)
+Theorem C18_evaluate_monitor_branch_fragments : forall target s c,
+  ev_env_step true target s c =
+  let '(r, l) := ev_acc (e_r s) (e_l s) (c_r c) in
+  if ev_under_quota (e_count s) target then
+    if ev_done (c_done c) then
+      let '(z1, z2) := ev_restart in
+      if ev_monitor_branch true then
+        (if ev_has_episode (match c_ep c with Some _ => true | None => false end) (match c_ep c with Some _ => false | None => true end)
+         then match c_ep c with Some ep => (mk_e (ev_count_mon (e_count s)) z1 z2, [ep]) | None => (mk_e (e_count s) z1 z2, []) end
+         else (mk_e (e_count s) z1 z2, []))
+      else (mk_e (ev_count_nomon (e_count s)) z1 z2, [(r, l)])
+    else (mk_e (e_count s) r l, [])
+  else (mk_e (e_count s) r l, []).
+Proof. exact frag_ev_env_step_monitor. Qed.
+Print Assumptions C18_evaluate_monitor_branch_fragments.
+
+Theorem C18_life_loss_not_counted : forall target s c, c_done c = true -> c_ep c = None ->
+  snd (ev_env_step true target s c) = [] /\ e_count (fst (ev_env_step true target s c)) = e_count s.
+Proof. exact life_loss_not_counted. Qed.
+Print Assumptions C18_life_loss_not_counted.
+
+Theorem C18_episodes_monitor_are_true : forall col a cr cl,
+  mon_consistent a col = true ->
+  episodes_from true cr cl (map fst col) = true_episodes (v_ret a) (v_len a) col.
+Proof. exact episodes_monitor_are_true. Qed.
+Print Assumptions C18_episodes_monitor_are_true.
+
+Example C18_life_loss_example :
+  let c r d e := mk_cell r d e in
+  evaluate true 1 1 [[c 1 true None]; [c 2 true (Some (3, 2))]] = ([mk_e 1 0 0], [(0%nat, (3, 2))], true) /\
+  mon_consistent v0 [(c 1 true None, false); (c 2 true (Some (3, 2)), true)] = true.
+Proof. split; reflexivity. Qed.
